@@ -27,7 +27,7 @@ use yash_env::job::Pid;
 use yash_env::semantics::{ExitStatus, Field};
 use yash_env::system::concurrency::WriteAll as _;
 use yash_env::system::r#virtual::{FileBody, Process, SystemState, VirtualSystem};
-use yash_env::system::{Close as _, Concurrent, Pipe as _};
+use yash_env::system::{Close as _, Concurrent, Fcntl as _, Pipe as _};
 use yverif::proto::{Opts, dec_bytes, emit, enc_bytes, enc_str, guarded, quiet_panics};
 use yverif::rng::Rng;
 use yash_cli::startup::args::{InitFile, Run, Source, Work};
@@ -62,7 +62,12 @@ enum Feed {
     Script,
     /// `sh -s` with stdin a pipe written in chunks of the given sizes (cyclic), with that many
     /// executor yields between chunks
-    Pipe(Vec<usize>, usize),
+    /// (the flag: the pipe is inherited with O_NONBLOCK set on its open file description)
+    Pipe(Vec<usize>, usize, bool),
+    /// the real binary (this executable re-run as `yash`) reading the script from a real pipe,
+    /// inherited in non-blocking mode or not; the units are written one at a time, the next one only
+    /// when every process of the shell's tree is blocked
+    Real(bool),
 }
 
 thread_local! {
@@ -168,7 +173,8 @@ fn run_feed(script: &[u8], data: &[u8], feed: &Feed) -> Outcome {
                         *content = script.clone();
                     }
                 }
-                Feed::Pipe(sizes, yields) => {
+                Feed::Real(_) => unreachable!(),
+                Feed::Pipe(sizes, yields, nonblock) => {
                     let wpid = Pid(1000);
                     let wsys = VirtualSystem { state: Rc::clone(state), process_id: wpid };
                     state
@@ -176,6 +182,10 @@ fn run_feed(script: &[u8], data: &[u8], feed: &Feed) -> Outcome {
                         .processes
                         .insert(wpid, Process::with_parent_and_group(Pid(1), Pid(1)));
                     let (r, w) = wsys.pipe().unwrap();
+                    if nonblock {
+                        // a careless parent left the pipe in non-blocking mode
+                        wsys.get_and_set_nonblocking(r, true).unwrap();
+                    }
                     // hand the read end to the shell process as its standard input
                     {
                         let mut st = state.borrow_mut();
@@ -411,17 +421,25 @@ fn parse_feed(t: &str) -> Option<Feed> {
         "file" => Some(Feed::File),
         "script" => Some(Feed::Script),
         _ => {
-            let mut it = t.split(':');
-            if it.next()? != "pipe" {
-                return None;
+            if t == "real:nb" {
+                return Some(Feed::Real(true));
             }
+            if t == "real:bl" {
+                return Some(Feed::Real(false));
+            }
+            let mut it = t.split(':');
+            let nonblock = match it.next()? {
+                "pipe" => false,
+                "nbpipe" => true,
+                _ => return None,
+            };
             let pause: usize = it.next()?.parse().ok()?;
             let sizes: Option<Vec<usize>> = it.next()?.split(',').map(|x| x.parse().ok()).collect();
             let sizes = sizes?;
             if sizes.is_empty() || sizes.iter().any(|&n| n == 0) {
                 return None;
             }
-            Some(Feed::Pipe(sizes, pause))
+            Some(Feed::Pipe(sizes, pause, nonblock))
         }
     }
 }
